@@ -18,6 +18,9 @@ use std::path::Path;
 pub struct BreakpointRecord {
     pub id: i64,
     pub addresses: Vec<debugger::address::Address>,
+    /// Numbers of the debugger breakpoints behind this record. Unlike an address
+    /// (file-relative before the program runs, relocated afterwards) a number stays the same.
+    pub numbers: Vec<u32>,
     pub condition: Option<String>,
     pub hit_condition: Option<HitCondition>,
     pub log_message: Option<String>,
@@ -228,8 +231,8 @@ impl DebugSession {
                 .ok_or_else(|| anyhow!("setBreakpoints: debugger not initialized"))?;
 
             for record in prev {
-                for addr in record.addresses {
-                    let _ = dbg.remove_breakpoint(addr);
+                for number in record.numbers {
+                    let _ = dbg.remove_breakpoint_by_number(number);
                 }
                 pending_events.push(InternalEvent::Breakpoint {
                     reason: "removed",
@@ -267,6 +270,7 @@ impl DebugSession {
                         new_breakpoints.push(BreakpointRecord {
                             id,
                             addresses: v.iter().map(|view| view.addr).collect(),
+                            numbers: v.iter().map(|view| view.number).collect(),
                             condition: options.condition,
                             hit_condition: options.hit_condition,
                             log_message: options.log_message,
@@ -289,6 +293,7 @@ impl DebugSession {
                         new_breakpoints.push(BreakpointRecord {
                             id,
                             addresses: Vec::new(),
+                            numbers: Vec::new(),
                             condition: options.condition,
                             hit_condition: options.hit_condition,
                             log_message: options.log_message,
@@ -351,8 +356,8 @@ impl DebugSession {
                 .ok_or_else(|| anyhow!("setFunctionBreakpoints: debugger not initialized"))?;
 
             for record in prev {
-                for addr in record.addresses {
-                    let _ = dbg.remove_breakpoint(addr);
+                for number in record.numbers {
+                    let _ = dbg.remove_breakpoint_by_number(number);
                 }
                 pending_events.push(InternalEvent::Breakpoint {
                     reason: "removed",
@@ -378,6 +383,7 @@ impl DebugSession {
                     new_breakpoints.push(BreakpointRecord {
                         id,
                         addresses: Vec::new(),
+                        numbers: Vec::new(),
                         condition: options.condition,
                         hit_condition: options.hit_condition,
                         log_message: options.log_message,
@@ -401,6 +407,7 @@ impl DebugSession {
                         new_breakpoints.push(BreakpointRecord {
                             id,
                             addresses: views.iter().map(|view| view.addr).collect(),
+                            numbers: views.iter().map(|view| view.number).collect(),
                             condition: options.condition,
                             hit_condition: options.hit_condition,
                             log_message: options.log_message,
@@ -422,6 +429,7 @@ impl DebugSession {
                         new_breakpoints.push(BreakpointRecord {
                             id,
                             addresses: Vec::new(),
+                            numbers: Vec::new(),
                             condition: options.condition,
                             hit_condition: options.hit_condition,
                             log_message: options.log_message,
@@ -443,6 +451,7 @@ impl DebugSession {
                         new_breakpoints.push(BreakpointRecord {
                             id,
                             addresses: Vec::new(),
+                            numbers: Vec::new(),
                             condition: options.condition,
                             hit_condition: options.hit_condition,
                             log_message: options.log_message,
@@ -503,8 +512,8 @@ impl DebugSession {
                 .ok_or_else(|| anyhow!("setInstructionBreakpoints: debugger not initialized"))?;
 
             for record in prev {
-                for addr in record.addresses {
-                    let _ = dbg.remove_breakpoint(addr);
+                for number in record.numbers {
+                    let _ = dbg.remove_breakpoint_by_number(number);
                 }
                 pending_events.push(InternalEvent::Breakpoint {
                     reason: "removed",
@@ -531,6 +540,7 @@ impl DebugSession {
                     new_breakpoints.push(BreakpointRecord {
                         id,
                         addresses: Vec::new(),
+                        numbers: Vec::new(),
                         condition: options.condition,
                         hit_condition: options.hit_condition,
                         log_message: options.log_message,
@@ -557,6 +567,7 @@ impl DebugSession {
                         new_breakpoints.push(BreakpointRecord {
                             id,
                             addresses: Vec::new(),
+                            numbers: Vec::new(),
                             condition: options.condition,
                             hit_condition: options.hit_condition,
                             log_message: options.log_message,
@@ -582,6 +593,7 @@ impl DebugSession {
                         new_breakpoints.push(BreakpointRecord {
                             id,
                             addresses: vec![view.addr],
+                            numbers: vec![view.number],
                             condition: options.condition,
                             hit_condition: options.hit_condition,
                             log_message: options.log_message,
@@ -603,6 +615,7 @@ impl DebugSession {
                         new_breakpoints.push(BreakpointRecord {
                             id,
                             addresses: Vec::new(),
+                            numbers: Vec::new(),
                             condition: options.condition,
                             hit_condition: options.hit_condition,
                             log_message: options.log_message,
